@@ -272,7 +272,9 @@ pub fn walk<'tcx>(tcx: TyCtxt<'tcx>) -> J {
                     if let Rvalue::Aggregate(k, _) = rv {
                         if let AggregateKind::Closure(cdid, cargs) = **k {
                             let cargs = cx.subst(cargs);
-                            let ci = Instance::resolve_closure(tcx, cdid, cargs, ty::ClosureKind::FnOnce);
+                            // resolve with the closure's own kind: asking for FnOnce on an Fn/FnMut closure yields the
+                            // `FnOnce::call_once` shim (an instance of a core item), and the closure body would never be walked
+                            let ci = Instance::resolve_closure(tcx, cdid, cargs, cargs.as_closure().kind());
                             new_refs.push(def_key(tcx, ci.def_id()));
                             if seen.insert(ci) {
                                 queue.push_back((ci, entry.clone()));
@@ -607,7 +609,7 @@ fn enqueue_fn_const<'tcx>(
                 }
             }
             ty::Closure(did, args) => {
-                let ci = Instance::resolve_closure(cx.tcx, *did, args, ty::ClosureKind::FnOnce);
+                let ci = Instance::resolve_closure(cx.tcx, *did, args, args.as_closure().kind());
                 if seen.insert(ci) {
                     queue.push_back((ci, entry.to_string()));
                 }
